@@ -279,32 +279,205 @@ class PyModel:
         return self.init_attrs(cls) | self.class_level_names(cls)
 
     # ----------------------------------------------------------- regex constants
-    def eval_str(self, node: ast.AST, env: Optional[Dict[str, str]] = None) -> Optional[str]:
+    _UNKNOWN = object()
+
+    def eval_const(self, node: ast.AST, env: Optional[Dict[str, object]] = None):
+        """Partial evaluator for constant expressions (str / int / tuple / list / dict built from literals, other
+        constants, +, %, f-strings, str.join/format/lower/upper/strip, re.escape, dict(...), tuple(...), zip,
+        dict.fromkeys, {**a, **b}).  Returns PyModel._UNKNOWN when the value is not a compile-time constant."""
+        U = PyModel._UNKNOWN
         env = env or {}
-        if isinstance(node, ast.Constant) and isinstance(node.value, str):
+        ev = lambda n: self.eval_const(n, env)  # noqa: E731
+        if isinstance(node, ast.Constant):
             return node.value
-        if isinstance(node, ast.BinOp) and isinstance(node.op, ast.Add):
-            a, b = self.eval_str(node.left, env), self.eval_str(node.right, env)
-            return None if a is None or b is None else a + b
-        if isinstance(node, ast.Name) and node.id in env:
-            return env[node.id]
+        if isinstance(node, ast.Name):
+            return env.get(node.id, U)
+        if isinstance(node, (ast.Tuple, ast.List)):
+            out = []
+            for e in node.elts:
+                if isinstance(e, ast.Starred):
+                    v = ev(e.value)
+                    if v is U or not isinstance(v, (tuple, list)):
+                        return U
+                    out.extend(v)
+                    continue
+                v = ev(e)
+                if v is U:
+                    return U
+                out.append(v)
+            return tuple(out) if isinstance(node, ast.Tuple) else out
+        if isinstance(node, ast.Dict):
+            d = {}
+            for k, v in zip(node.keys, node.values):
+                vv = ev(v)
+                if vv is U:
+                    return U
+                if k is None:
+                    if not isinstance(vv, dict):
+                        return U
+                    d.update(vv)
+                else:
+                    kk = ev(k)
+                    if kk is U:
+                        return U
+                    d[kk] = vv
+            return d
+        if isinstance(node, ast.BinOp):
+            a, b = ev(node.left), ev(node.right)
+            if a is U or b is U:
+                return U
+            try:
+                if isinstance(node.op, ast.Add):
+                    return a + b
+                if isinstance(node.op, ast.Mod):
+                    return a % b
+                if isinstance(node.op, ast.Mult):
+                    return a * b
+                if isinstance(node.op, ast.BitOr) and isinstance(a, dict) and isinstance(b, dict):
+                    return {**a, **b}
+            except Exception:
+                return U
+            return U
         if isinstance(node, ast.JoinedStr):
             out = ""
             for v in node.values:
                 if isinstance(v, ast.Constant):
-                    out += v.value
+                    out += str(v.value)
                 elif isinstance(v, ast.FormattedValue):
-                    s = self.eval_str(v.value, env)
-                    if s is None:
-                        return None
-                    out += s
+                    x = ev(v.value)
+                    if x is U or v.format_spec is not None and ev(v.format_spec) is U:
+                        return U
+                    spec = ev(v.format_spec) if v.format_spec is not None else ""
+                    try:
+                        x = {115: str, 114: repr, 97: ascii}.get(v.conversion, lambda y: y)(x)
+                        out += format(x, spec)
+                    except Exception:
+                        return U
             return out
-        if (isinstance(node, ast.Call) and isinstance(node.func, ast.Attribute)
-                and isinstance(node.func.value, ast.Name) and node.func.value.id == "re"
-                and node.func.attr == "escape" and len(node.args) == 1):
-            s = self.eval_str(node.args[0], env)
-            return None if s is None else re.escape(s)
-        return None
+        if isinstance(node, (ast.GeneratorExp, ast.ListComp, ast.SetComp, ast.DictComp)):
+            results = []
+
+            def bind(t, xv, e2):
+                if isinstance(t, ast.Name):
+                    e2[t.id] = xv
+                    return True
+                if isinstance(t, (ast.Tuple, ast.List)):
+                    try:
+                        xs = list(xv)
+                    except Exception:
+                        return False
+                    if len(xs) != len(t.elts):
+                        return False
+                    return all(bind(tt, xx, e2) for tt, xx in zip(t.elts, xs))
+                return False
+
+            def loop(gi, e2):
+                if gi == len(node.generators):
+                    if isinstance(node, ast.DictComp):
+                        k, v = self.eval_const(node.key, e2), self.eval_const(node.value, e2)
+                        if k is U or v is U:
+                            return False
+                        results.append((k, v))
+                    else:
+                        v = self.eval_const(node.elt, e2)
+                        if v is U:
+                            return False
+                        results.append(v)
+                    return True
+                g = node.generators[gi]
+                it = self.eval_const(g.iter, e2)
+                if it is U or not isinstance(it, (tuple, list, dict, str)):
+                    return False
+                for x in list(it):
+                    e3 = dict(e2)
+                    if not bind(g.target, x, e3):
+                        return False
+                    conds = [self.eval_const(c, e3) for c in g.ifs]
+                    if any(c is U for c in conds):
+                        return False
+                    if all(conds) and not loop(gi + 1, e3):
+                        return False
+                return True
+
+            if not loop(0, dict(env)):
+                return U
+            return dict(results) if isinstance(node, ast.DictComp) else results
+        if isinstance(node, ast.Compare) and len(node.ops) == 1:
+            a, b = ev(node.left), ev(node.comparators[0])
+            if a is U or b is U:
+                return U
+            op = node.ops[0]
+            try:
+                return {ast.Eq: a == b, ast.NotEq: a != b}.get(type(op), U) if not isinstance(op, (ast.In, ast.NotIn)) else \
+                    ((a in b) if isinstance(op, ast.In) else (a not in b))
+            except Exception:
+                return U
+        if isinstance(node, ast.Subscript):
+            a, i = ev(node.value), ev(node.slice) if not isinstance(node.slice, ast.Slice) else U
+            if a is U or i is U:
+                return U
+            try:
+                return a[i]
+            except Exception:
+                return U
+        if isinstance(node, ast.Call):
+            cn = call_name(node)
+            args = [ev(a) for a in node.args]
+            kws = {k.arg: ev(k.value) for k in node.keywords}
+            if isinstance(node.func, ast.Attribute):
+                recv = ev(node.func.value)
+                m = node.func.attr
+                if recv is not U and isinstance(recv, str) and m in ("join", "format", "lower", "upper", "strip", "replace", "split", "rstrip", "lstrip") \
+                        and all(a is not U for a in args) and all(v is not U for v in kws.values()) and None not in kws:
+                    try:
+                        if m == "join":
+                            return recv.join(args[0])
+                        return getattr(recv, m)(*args, **kws)
+                    except Exception:
+                        return U
+                if recv is not U and isinstance(recv, dict) and m in ("keys", "values", "items") and not args:
+                    return list(getattr(recv, m)())
+            if any(a is U for a in args) or any(v is U for v in kws.values()) or None in kws:
+                # dict(**a, **b) style
+                if cn == "dict" and not args and all(k.arg is None for k in node.keywords):
+                    d = {}
+                    for k in node.keywords:
+                        v = ev(k.value)
+                        if v is U or not isinstance(v, dict):
+                            return U
+                        d.update(v)
+                    return d
+                return U
+            try:
+                if cn == "re.escape" and len(args) == 1:
+                    return re.escape(args[0])
+                if cn == "dict":
+                    return dict(*args, **kws)
+                if cn in ("tuple", "list", "sorted", "set", "frozenset") and len(args) <= 1 and not kws:
+                    r = {"tuple": tuple, "list": list, "sorted": sorted, "set": list, "frozenset": list}[cn](*args)
+                    return r
+                if cn == "zip":
+                    return list(zip(*args))
+                if cn == "enumerate":
+                    return list(enumerate(*args, **kws))
+                if cn == "dict.fromkeys":
+                    return dict.fromkeys(*args)
+                if cn == "str" and len(args) == 1:
+                    return str(args[0])
+                if cn in ("str.maketrans",):
+                    return str.maketrans(*args)
+                if cn in ("chain", "itertools.chain"):
+                    out = []
+                    for a in args:
+                        out.extend(a)
+                    return out
+            except Exception:
+                return U
+        return U
+
+    def eval_str(self, node: ast.AST, env: Optional[Dict[str, object]] = None) -> Optional[str]:
+        v = self.eval_const(node, env)
+        return v if isinstance(v, str) else None
 
     @staticmethod
     def eval_flags(node: Optional[ast.AST]) -> Optional[int]:
@@ -336,36 +509,79 @@ class PyModel:
                 if pat is not None and flags is not None:
                     out[f"{owner}.{tname}"] = (pat, flags, value, mod)
 
+        def simple_assign(st):
+            if isinstance(st, ast.Assign) and len(st.targets) == 1 and isinstance(st.targets[0], ast.Name):
+                return st.targets[0].id, st.value
+            if isinstance(st, ast.AnnAssign) and isinstance(st.target, ast.Name) and st.value is not None:
+                return st.target.id, st.value
+            return None
+
         for mod, tree in self.modules.items():
-            env: Dict[str, str] = {}
+            env = self.module_env(mod)
             for st in tree.body:
-                if isinstance(st, ast.Assign) and len(st.targets) == 1 and isinstance(st.targets[0], ast.Name):
-                    s = self.eval_str(st.value, env)
-                    if s is not None:
-                        env[st.targets[0].id] = s
-                    handle(mod, mod, st.targets[0].id, st.value, env)
+                sa = simple_assign(st)
+                if sa:
+                    handle(mod, mod, sa[0], sa[1], env)
                 elif isinstance(st, ast.ClassDef):
                     cenv = dict(env)
                     for m in st.body:
-                        if isinstance(m, ast.Assign) and len(m.targets) == 1 and isinstance(m.targets[0], ast.Name):
-                            s = self.eval_str(m.value, cenv)
-                            if s is not None:
-                                cenv[m.targets[0].id] = s
-                            handle(st.name, mod, m.targets[0].id, m.value, cenv)
+                        sa = simple_assign(m)
+                        if sa:
+                            v = self.eval_const(sa[1], cenv)
+                            if v is not PyModel._UNKNOWN:
+                                cenv[sa[0]] = v
+                            handle(st.name, mod, sa[0], sa[1], cenv)
         return out
+
+    def module_env(self, mod: str) -> Dict[str, object]:
+        """module-level constants (evaluated in order) of ford/<mod>.py, including names imported from sibling modules"""
+        cache = self.__dict__.setdefault("_menv", {})
+        if mod in cache:
+            return cache[mod]
+        cache[mod] = env = {}
+        tree = self.modules[mod]
+        for st in tree.body:
+            if isinstance(st, ast.ImportFrom) and st.module and st.module.startswith("ford.") and st.module[5:] in self.modules \
+                    and st.module[5:] != mod:
+                other = self.module_env(st.module[5:])
+                for a in st.names:
+                    if a.name in other:
+                        env[a.asname or a.name] = other[a.name]
+            tgt = None
+            if isinstance(st, ast.Assign) and len(st.targets) == 1 and isinstance(st.targets[0], ast.Name):
+                tgt, val = st.targets[0].id, st.value
+            elif isinstance(st, ast.AnnAssign) and isinstance(st.target, ast.Name) and st.value is not None:
+                tgt, val = st.target.id, st.value
+            if tgt:
+                v = self.eval_const(val, env)
+                if v is not PyModel._UNKNOWN:
+                    env[tgt] = v
+        return env
+
+    def const_value(self, owner: str, name: str):
+        """value of the module-level ('module', NAME) or class-level ('Class', NAME) constant, or _UNKNOWN"""
+        if owner in self.modules:
+            return self.module_env(owner).get(name, PyModel._UNKNOWN)
+        if owner in self.classes:
+            ci = self.classes[owner]
+            env = dict(self.module_env(ci.module))
+            for m in ci.node.body:
+                tgt = None
+                if isinstance(m, ast.Assign) and len(m.targets) == 1 and isinstance(m.targets[0], ast.Name):
+                    tgt, val = m.targets[0].id, m.value
+                elif isinstance(m, ast.AnnAssign) and isinstance(m.target, ast.Name) and m.value is not None:
+                    tgt, val = m.target.id, m.value
+                if tgt:
+                    v = self.eval_const(val, env)
+                    if v is not PyModel._UNKNOWN:
+                        env[tgt] = v
+            return env.get(name, PyModel._UNKNOWN)
+        return PyModel._UNKNOWN
 
     def str_constant(self, owner: str, name: str) -> Optional[str]:
         """Module-level ('module', NAME) or class-level ('Class', NAME) string constant."""
-        if owner in self.modules:
-            for st in self.modules[owner].body:
-                if isinstance(st, ast.Assign) and len(st.targets) == 1 and \
-                        isinstance(st.targets[0], ast.Name) and st.targets[0].id == name:
-                    return self.eval_str(st.value)
-        if owner in self.classes:
-            v = self.classes[owner].class_attrs.get(name)
-            if v is not None:
-                return self.eval_str(v)
-        return None
+        v = self.const_value(owner, name)
+        return v if isinstance(v, str) else None
 
     # ------------------------------------------------------------------ helpers
     def walk_calls(self, node: ast.AST) -> Iterator[ast.Call]:
